@@ -219,15 +219,17 @@ def recombine (rows : List (Key × Option Int)) : List (Key × Option Int) :=
 
 /-- Classifier of the open finding `group-nullkey-duplicate` (C04's subject, seen through grouped SUM): the grouping
     column has a NULL key in some partition, there are several partitions, the implementation returns some group key
-    more than once, and adding up the rows of equal keys gives exactly the expected result. -/
-def isNullKeyDuplicate (impl : String) (expected : SumOut) (parts : List PartRes) : Bool :=
-  match parseGrouped impl, expected with
-  | some rows, .rows exp =>
+    more than once, and adding up the rows of equal keys gives exactly the exact per-group sums (which the
+    specification demands as rows, or — if one of them does not fit i64 — as Overflow: the split group was never added up,
+    so the implementation did not notice). -/
+def isNullKeyDuplicate (impl : String) (exact : List (Key × Option Int)) (parts : List PartRes) : Bool :=
+  match parseGrouped impl with
+  | some rows =>
       parts.length ≥ 2 &&
       parts.any (fun p => p.keys.any (· == some none)) &&
       rows.length > (recombine rows).length &&
-      recombine rows == exp
-  | _, _ => false
+      recombine rows == exact
+  | none => false
 
 def dedup (xs : List SumOut) : List SumOut :=
   xs.foldl (fun acc x => if acc.any (· == x) then acc else acc ++ [x]) []
@@ -284,7 +286,7 @@ def stepSum (rpn bounds gtok : String) (rest : List String) : String :=
               let known :=
                 if verdict.startsWith "BAD" && outcomes.any (fun o => showSumOut o = impl) && hasSentinelPartial parts keys
                 then "\tsum-sentinel"
-                else if verdict.startsWith "BAD" && g.isSome && isNullKeyDuplicate impl expected parts
+                else if verdict.startsWith "BAD" && g.isSome && !exprFails && isNullKeyDuplicate impl exact parts
                 then "\tgroup-nullkey-duplicate" else ""
               modelStr ++ "\t" ++ verdict ++ known
       | _, _, _ => "bad-op\tbad-op"
